@@ -116,7 +116,16 @@ pub fn run(id: &str, tier: Tier, seed: u64, replay: Option<&std::path::Path>) ->
     let prof = profile(id);
     let started = Instant::now();
     let test = |case: &HistCase| -> Result<CaseInfo, crate::model::Fail> {
-        let (mut info, flags) = run_history(case)?;
+        let (mut info, flags) = run_history(case).map_err(|mut f| {
+            // C07's own clauses: registration frames are kept (forever) and are what makes a
+            // context usable; a refused append leaves no broadcast behind
+            if hp.id == "C07"
+                && (f.msg.contains("(\"xs.context\")") || f.msg.contains("that no accepted append produced"))
+            {
+                f.class = crate::model::Class::ContextRule;
+            }
+            f
+        })?;
         info.nontrivial = nontrivial(hp.id, case, &flags);
         Ok(info)
     };
